@@ -10,8 +10,8 @@ from ..models import frame as F
 
 ID = "C19"
 LEVEL = "exploration"
-TIERS = {"quick": {"shards": 16, "budget_s": 25, "random": 2000, "exh_len": 8},
-         "thorough": {"shards": 16, "budget_s": 420, "random": 100000, "exh_len": 12}}
+TIERS = {"quick": {"shards": 16, "budget_s": 120, "random": 2000, "exh_len": 8},
+         "thorough": {"shards": 16, "budget_s": 900, "random": 100000, "exh_len": 12}}
 RULE = ("Histories read^k, rewind, read^j, rewind, [read^i, rewind] on AudioReader(record=True) and Recorder, k from 0 to past "
         "the end, over source kinds / formats / block / hop / max_read as in C10; bounded-exhaustive core on a bytes source "
         "(length<=exh_len, block<=4, hop<=block, max_read None/0..length+1, every k and j).  Oracle (FRAME recorder clause): "
